@@ -571,4 +571,199 @@ theorem nok_resume (E : Env α) (f : Nat) (ih : NOk E f) : ∀ s fr r L Λ, resu
                   · simp at h
             · simp at h
 
+
+/-- the state `query_derivation` runs its loop over the combinations from: the popped index tuples are in limbo -/
+theorem tinv2_pop {s : St α} {Λ : List NT → List (List Nat)} {args : List NT} {b : AList Nat (List (List Ref))} {q q' : Q α}
+    {ct : CT α} {ci : Nat} (hs : TInv2 s Λ) (hb : AList.lookup args s.bankDer = some b)
+    (hq : AList.lookup args s.queueDer = some q) (hpop : q.pop = some (ct, q')) :
+    TInv2 ({ s with bankDer := AList.insert args (AList.insert ci [] b) s.bankDer }.setQueueDer args q') (addT Λ args ct.combs) := by
+  have hs1a : TInv2 { s with bankDer := AList.insert args (AList.insert ci [] b) s.bankDer } Λ :=
+    tinv2_setBankDer hs (fun D hD => possD_insert_nil hb hD)
+  have hwf := (hs args).1 q hq
+  obtain ⟨hwf', _, hperm, _⟩ := qwf_pop q q' ct hwf hpop
+  refine tinv2_setQueueDer (Λ := Λ) hs1a hwf' ?_ (fun a ha => addT_ne _ _ _ _ ha)
+  rw [addT_self]
+  have hc : contentsOf { s with bankDer := AList.insert args (AList.insert ci [] b) s.bankDer } args = q.contents :=
+    contentsOf_some (s := { s with bankDer := AList.insert args (AList.insert ci [] b) s.bankDer }) hq
+  rw [hc]
+  have : (q.contents ++ Λ args).Perm ((ct.combs ++ q'.contents) ++ Λ args) := List.Perm.append_right _ hperm
+  refine this.trans ?_
+  rw [List.append_assoc]
+  exact (List.perm_append_comm_assoc _ _ _)
+
+theorem nok_all (E : Env α) : ∀ f, NOk E f := by
+  intro f
+  induction f with
+  | zero =>
+    refine ⟨?_, ?_, ?_, ?_, ?_, ?_⟩
+    · intro s fr r L Λ h; simp [resume] at h
+    · intro s fr s' L Λ h; simp [drive] at h
+    · intro s S ci s' ia r L Λ h; simp [queryList] at h
+    · intro s cs ss ia agf acc s' ia' agf' acc' L Λ h; simp [argLoop] at h
+    · intro s args ci c combs ns hg s' ns' hg' L Λ h; simp [combLoop] at h
+    · intro s args ci s' l L Λ h; simp [queryDer] at h
+  | succ f ih =>
+    refine ⟨nok_resume E f ih, ?_, ?_, ?_, ?_, ?_⟩
+    · -- drive
+      intro s fr s' L Λ h hH hT hN hF
+      rw [drive] at h
+      split at h
+      · simp at h
+      · rename_i s1 hr
+        simp only [Option.some.injEq] at h; subst h
+        exact ih.resume _ _ _ _ _ hr hH hT hN hF
+      · rename_i s1 fr1 p hr
+        have r1 := ih.resume _ _ _ _ _ hr hH hT hN hF
+        have hH1 : HInv s1 (symL L) := (hok_all E f).resume _ _ _ _ hr hH
+        have hT1 : TInv2 s1 Λ := (tok2_all E f).resume _ _ _ _ hr hT
+        exact ih.drive _ _ _ _ _ h hH1 hT1 r1.1 r1.2.1
+    · -- queryList
+      intro s S ci s' ia r L Λ h hH hT hN
+      rw [queryList] at h
+      split at h
+      · split at h
+        · simp only [Option.some.injEq, Prod.mk.injEq] at h; rw [← h.1]; exact hN
+        · split at h
+          · simp only [Option.some.injEq, Prod.mk.injEq] at h; rw [← h.1]; exact hN
+          · split at h
+            · simp only [Option.some.injEq, Prod.mk.injEq] at h; rw [← h.1]; exact hN
+            · split at h
+              · simp at h
+              · rename_i s1 hd
+                have hs1 := ih.drive _ _ _ _ _ hd hH hT hN (frok_none rfl)
+                split at h
+                · split at h
+                  · simp only [Option.some.injEq, Prod.mk.injEq] at h; rw [← h.1]; exact hs1
+                  · split at h
+                    · simp only [Option.some.injEq, Prod.mk.injEq] at h; rw [← h.1]; exact hs1
+                    · simp at h
+                · simp at h
+      · simp at h
+    · -- argLoop
+      intro s cs ss ia agf acc s' ia' agf' acc' L Λ h hH hT hN
+      cases cs with
+      | nil => simp only [argLoop, Option.some.injEq, Prod.mk.injEq] at h; rw [← h.1]; exact hN
+      | cons c cs =>
+        cases ss with
+        | nil => simp only [argLoop, Option.some.injEq, Prod.mk.injEq] at h; rw [← h.1]; exact hN
+        | cons Si ss =>
+          rw [argLoop] at h
+          split at h
+          · simp at h
+          · rename_i s1 one r hq
+            have hN1 := ih.queryList _ _ _ _ _ _ _ _ hq hH hT hN
+            have hH1 : HInv s1 (symL L) := (hok_all E f).queryList _ _ _ _ _ _ _ hq hH
+            have hT1 : TInv2 s1 Λ := (tok2_all E f).queryList _ _ _ _ _ _ _ hq hT
+            split at h
+            · split at h
+              · simp only [Option.some.injEq, Prod.mk.injEq] at h; rw [← h.1]; exact hN1
+              · exact ih.argLoop _ _ _ _ _ _ _ _ _ _ _ _ h hH1 hT1 hN1
+            · exact ih.argLoop _ _ _ _ _ _ _ _ _ _ _ _ h hH1 hT1 hN1
+    · -- combLoop
+      intro s args ci c combs ns hg s' ns' hg' L Λ h hH hT hN
+      cases combs with
+      | nil => simp only [combLoop, Option.some.injEq, Prod.mk.injEq] at h; rw [← h.1]; exact hN
+      | cons comb rest =>
+        rw [combLoop] at h
+        split at h
+        · simp at h
+        · rename_i s1 ia agf poss ha
+          have hN1 := ih.argLoop _ _ _ _ _ _ _ _ _ _ _ _ ha hH hT hN
+          have hH1 : HInv s1 (symL L) := (hok_all E f).argLoop _ _ _ _ _ _ _ _ _ _ _ ha hH
+          have hT1 : TInv2 s1 (addT Λ args (comb :: rest)) := (tok2_all E f).argLoop _ _ _ _ _ _ _ _ _ _ _ ha hT
+          simp only at h
+          split at h
+          · exact ih.combLoop _ _ _ _ _ _ _ _ _ _ _ _ h hH1 (tinv2_drop hT1) hN1
+          · split at h
+            · simp at h
+            · rename_i s2 hsucc
+              have e := succLoop_fields E.A E.asserts args c comb _ _ _ _ hsucc
+              have hN2 : NInv E s2 L := ninv_of_eq e.1 e.2.1 e.2.2 hN1
+              have hH2 : HInv s2 (symL L) := hinv_succLoop E.A E.asserts args c comb _ _ _ _ hsucc hH1
+              have hT2 := tinv2_succLoop E.A E.asserts args c comb rest s1 s2 hsucc hT1
+              split at h
+              · exact ih.combLoop _ _ _ _ _ _ _ _ _ _ _ _ h hH2 hT2.1 hN2
+              · split at h
+                · simp at h
+                · rename_i b hb
+                  split at h
+                  · simp at h
+                  · rename_i l hl
+                    have hagf : agf = false := by
+                      cases agf with
+                      | false => rfl
+                      | true => cases ia <;> simp_all
+                    have hposs : poss = refsOf args comb := by
+                      have := (argLoop_refs E f _ _ _ _ _ _ _ _ _ _ ha hagf).2
+                      simpa using this
+                    have hN3 : NInv E { s2 with bankDer := AList.insert args (AList.insert ci (l ++ [poss]) b) s2.bankDer } L :=
+                      ninv_transfer hN2 rfl (binv_of_eq rfl hN2.binv) (BMono.of_eq rfl) (BMono.of_eq rfl)
+                        (fun a c' ps hp => possAt_append_mono hb hl a c' ps hp)
+                    have hH3 : HInv { s2 with bankDer := AList.insert args (AList.insert ci (l ++ [poss]) b) s2.bankDer } (symL L) :=
+                      hinv_of_eq rfl hH2
+                    have hT3 : TInv2 { s2 with bankDer := AList.insert args (AList.insert ci (l ++ [poss]) b) s2.bankDer }
+                        (addT Λ args rest) := by
+                      rw [hposs]; exact hT2.2 b ci l hb hl
+                    exact ih.combLoop _ _ _ _ _ _ _ _ _ _ _ _ h hH3 hT3 hN3
+    · -- queryDer
+      intro s args ci s' l L Λ h hH hT hN
+      rw [queryDer] at h
+      split at h
+      · rename_i cl b q hcl hb hq
+        split at h
+        · simp only [Option.some.injEq, Prod.mk.injEq] at h; rw [← h.1, ← h.2]; exact ⟨hN, Or.inl rfl⟩
+        · split at h
+          · rename_i l0 hl0
+            simp only [Option.some.injEq, Prod.mk.injEq] at h; rw [← h.1, ← h.2]; exact ⟨hN, Or.inr ⟨b, hb, hl0⟩⟩
+          · rename_i hl0
+            have hN1a : NInv E { s with bankDer := AList.insert args (AList.insert ci [] b) s.bankDer } L :=
+              ninv_transfer hN rfl (binv_of_eq rfl hN.binv) (BMono.of_eq rfl) (BMono.of_eq rfl)
+                (fun a c' ps hp => possAt_nil_mono hb hl0 a c' ps hp)
+            simp only at h
+            split at h
+            · simp only [Option.some.injEq, Prod.mk.injEq] at h; rw [← h.1, ← h.2]; exact ⟨hN1a, Or.inl rfl⟩
+            · split at h
+              · simp at h
+              · rename_i ct q' hpop
+                have hT1 := tinv2_pop (ci := ci) hT hb hq hpop
+                have hN1 : NInv E ({ s with bankDer := AList.insert args (AList.insert ci [] b) s.bankDer }.setQueueDer args q') L :=
+                  ninv_of_eq (s := { s with bankDer := AList.insert args (AList.insert ci [] b) s.bankDer }) rfl rfl rfl hN1a
+                have hH1 : HInv ({ s with bankDer := AList.insert args (AList.insert ci [] b) s.bankDer }.setQueueDer args q') (symL L) :=
+                  hinv_of_eq rfl hH
+                split at h
+                · simp at h
+                · rename_i s3 ns hg hc
+                  have hN3 := ih.combLoop _ _ _ _ _ _ _ _ _ _ _ _ hc hH1 hT1 hN1
+                  split at h
+                  · simp at h
+                  · rename_i s4 hs4e
+                    have hN4 : NInv E s4 L := by
+                      split at hs4e
+                      · split at hs4e
+                        · simp at hs4e
+                        · simp only [Option.some.injEq] at hs4e; subst hs4e; exact ninv_of_eq (s := s3) rfl rfl rfl hN3
+                      · simp only [Option.some.injEq] at hs4e; subst hs4e; exact hN3
+                    split at h
+                    · split at h
+                      · simp at h
+                      · rename_i s5 hs5e
+                        have hN5 : NInv E s5 L := by
+                          split at hs5e
+                          · simp only [Option.some.injEq] at hs5e; subst hs5e; exact hN4
+                          · split at hs5e
+                            · simp at hs5e
+                            · split at hs5e
+                              · simp at hs5e
+                              · simp only [Option.some.injEq] at hs5e; subst hs5e; exact ninv_of_eq (s := s4) rfl rfl rfl hN4
+                        split at h
+                        · simp at h
+                        · rename_i l5 hl5
+                          simp only [Option.some.injEq, Prod.mk.injEq] at h; rw [← h.1, ← h.2]
+                          refine ⟨hN5, Or.inr ?_⟩
+                          cases hb5 : AList.lookup args s5.bankDer with
+                          | none => simp [hb5] at hl5
+                          | some b5 => exact ⟨b5, rfl, by simpa [hb5] using hl5⟩
+                    · simp at h
+      · simp at h
+
 end PS.CD
